@@ -286,7 +286,7 @@ def model(lines: list[dict], driver: str = "Path", timeout: int = 3000) -> list[
         raise InfraError("model driver timed out") from None
     if p.returncode != 0:
         raise InfraError(f"model driver failed: {p.stderr[-2000:]}")
-    outs = [json.loads(l) for l in p.stdout.splitlines() if l.strip()]
+    outs = [json.loads(l) for l in p.stdout.split("\n") if l.strip()]  # not splitlines(): U+2028/U+0085 may occur inside strings
     if len(outs) != len(lines):
         raise InfraError(f"model driver answered {len(outs)} lines for {len(lines)} requests: {p.stderr[-500:]}")
     return outs
